@@ -28,6 +28,15 @@ Definition rrepr (c : rcase) (x : float) : string :=
 
 Definition read_text (s : string) : result sexp := parse MFile (unesc s).
 
+(* the exported text is ONE form and nothing else: the library's reader ignores whatever follows the first complete form
+   (finding D02 of C11), so a tail left in the file - e.g. of a longer text written to the same path before - would go
+   unnoticed by reading alone *)
+Definition text_complete (ex : obs string) : bool :=
+  match ex with
+  | Returned t => match unread_tokens (tokenize MFile (unesc t)) with [] => true | _ :: _ => false end
+  | Raised => true
+  end.
+
 Definition model_parse (v : vocab) (c : rcase) (e : sexp) : result mproblem :=
   parse_problem cfg_current (rnum c) (mdomain_of v) e.
 
@@ -68,7 +77,7 @@ Definition round_agree (v : vocab) (c : rcase) (pb : mproblem) (ex : obs string)
           let mine := model_export v c pb in
           let re := model_parse v c e in              (* the model parser on the implementation's text *)
           let re_mine := model_parse v c mine in      (* ... and on the model's own export *)
-          (export_equiv mine e && obs_eqb pdump_agree (res_dump re) ob
+          (export_equiv mine e && text_complete ex && obs_eqb pdump_agree (res_dump re) ob
            && obs_eqb pdump_equiv (res_dump re_mine) (res_dump re), re)
       end
   end.
@@ -121,6 +130,7 @@ Definition ok (v : vocab) (c : rcase) : bool :=
           pdump_equiv d2 d1 && pdump_equiv d3 d1
           && text_means v c (r_export c) d1           (* the exported text, read by the spec, is the parsed problem *)
           && same_text (r_export c) (r_export2 c)     (* a second round changes nothing *)
+          && text_complete (r_export c) && text_complete (r_export2 c)   (* one form, no tail *)
       | _, _ => false
       end
   end.
